@@ -57,6 +57,26 @@ CHECKS.update({
                "TLA+ three-phase state machine model-checked with TLC (incl. liveness); terminal states replayed through parse/print/apply", "5 (C16)"),
 })
 
+CHECKS.update({
+    "C01": _mc("the segment-by-segment evaluation machine (spec/JsonPath.tla, EvalMachine.tla, MC_PathEval.tla, Render.tla)",
+               "every selector query of the universes over all documents at once: LocOK, pipeline = RFC denotation = second formulation, termination",
+               "Trusted: transcription of RFC 9535 2.3/2.5 (two independent formulations must agree), the renderer of surface spellings, TLC, codec. "
+               "Reorderings are accepted only if an RFC-valid descendant visit order explains them.",
+               "TLA+ evaluation state machine model-checked with TLC; each query rendered in every spelling and evaluated by the implementation on the same documents", "5 (C01)"),
+    "C02": _mc("the evaluation machine with filter selectors (spec/JsonPath.tla Truth/Compare/Call, Regex.tla, MC_Filter.tla)",
+               "comparison table over all ordered value pairs x operators x operand forms, expression-shape trees, the five functions; comparison algebra and RFC Table 11 as ASSUMEs",
+               "Trusted: transcription of RFC 9535 2.3.5/2.4; regular expressions restricted to the modelled common dialect; numbers are multiples of 1/2.",
+               "TLA+ filter semantics model-checked with TLC; every filter query evaluated by the implementation and the selected children compared", "5 (C02)"),
+    "C03": _mc("the evaluation machine plus the per-node tables (NormPath, PrintPtr) of the specification",
+               "every match of the query universes: normalized path, parts, pointer, parent against the node table, and by re-evaluation",
+               "Trusted: RFC 9535 2.7 and RFC 6901 transcriptions; object identity observed with `is`.",
+               "TLA+ node tables (normalized path, pointer) exported by TLC; every match of the implementation checked against them and re-evaluated", "5 (C03)"),
+    "C20": _mc("the evaluation machine plus tree surgery (SetAtLoc / RemoveAtLoc) per node",
+               "every match x {test, replace, remove} through the match's pointer",
+               "Trusted: RFC 6902 transcription; results compared as JSON values.",
+               "TLA+ tree-surgery results exported by TLC per node; patches built from match pointers applied by the implementation and compared", "5 (C20)"),
+})
+
 NOT_YET = {}
 
 
